@@ -28,7 +28,7 @@ SHAPES = scen.SHAPES_2D * 2 + scen.SHAPES_NA[:2] + scen.SHAPES_3D
 
 @st.composite
 def case_st(draw, shapes):
-    sc = draw(scen.scenario_st(shapes, measure="maybe"))
+    sc = draw(scen.scenario_st(shapes, measure="maybe", weight_kinds=scen.WEIGHTS_INEXACT))
     tx, inforce = draw(xforms.slice_insertions_st(sc, where="either", allow_malformed=False))
     sc["transforms"] = tx
     sc["insertions"] = inforce
